@@ -97,9 +97,19 @@ def cases(quick, rng):
     J = junior.ref()
     keys = sorted({k.split('|')[1] for k in J['tyrving']} | {k.split('|')[1] for k in J['qkids']})
     for k in keys:
-        for v in lang.variants(k, rng)[:12]:
+        # every first-order spelling variant of every table key; for hurdle specifications (several normalised parts in
+        # one code) also variants of variants, so that two parts are padded at once (seed C18-g: the port applied its
+        # replacements in string-sorted order of their offsets - 13 before 9 - and spliced at stale positions)
+        vs = lang.variants(k, rng)
+        second = set()
+        if 'cm' in k:
+            for v in vs:
+                if v != k and (not quick or '.' in v):
+                    second.update(lang.variants(v, rng))
+        for v in list(vs) + sorted(second - set(vs))[::3 if quick else 1]:
             C.append({'f': 'ne', 'a': [v]})
     cap = 250 if quick else 4000
+    spelled = {}
     for sys_, key, age, form, marks in junior.jobs_all(True, rng):
         if sys_ not in ('tyrving', 'qkids'):
             continue
@@ -112,6 +122,11 @@ def cases(quick, rng):
             if sys_ == 'tyrving':
                 g, ev = key.split('|')
                 C.append({'f': 'ty', 'a': [g, age, ev, v], 'opt': opt})
+                if 'cm' in ev and len(C) % 5 == 0:
+                    # the table is reached through the normalised key: a padded spelling of the key must score alike
+                    alts = spelled.setdefault(ev, [x for x in lang.variants(ev, rng) if x != ev and '.' in x and ' ' not in x and '\t' not in x and '\n' not in x])
+                    if alts:
+                        C.append({'f': 'ty', 'a': [g, age, alts[len(C) % len(alts)], v], 'opt': opt})
             else:
                 ct, ev = key.split('|')
                 C.append({'f': 'qk', 'a': [ct, ev, v], 'opt': opt})
